@@ -572,5 +572,5 @@ func c15Check(c *Ctx, cs c15Case) *Failure {
 
 func TestC15(t *testing.T) {
 	c := NewCtx(t, "C15")
-	RunRapid(c, t, Sub[c15Case]{Kind: "history", Quick: 40_000, Thorough: 2_000_000, Gen: genC15, Check: c15Check})
+	RunRapid(c, t, Sub[c15Case]{Kind: "history", Quick: 200_000, Thorough: 2_000_000, Gen: genC15, Check: c15Check})
 }
